@@ -240,3 +240,13 @@ PROPS["C04"] = dict(
     assumptions=["values are compared exactly on integer-valued data (stronger than a rounding bound); the rounding bound on non-integer data is not exercised"],
     stages=lambda tier: [mc("linear-ops", "MC_C04.tla", "MC_C04_%s.cfg" % tier, min_cases=8000)],
 )
+
+PROPS["C09"] = dict(
+    rule="BFS over every shape of rank 1..3 (4 thorough) extents 1..3: ArgMax every axis in both spellings (+ out of range) x keepdims "
+         "{default,0,1} on data with ties; ReduceMax/Min axes absent / every axes list of length <= 2 over [-r-1, r] / sorted triples x "
+         "keepdims; Softmax/LogSoftmax in the exact regime (multiples of 1000: result 1/k on the k maxima, 0 elsewhere; LogSoftmax "
+         "x-max with a unique maximum) with per-slice patterns and per-slice magnitudes along every axis, f32/f64, +-MaxFloat slices; "
+         "non-trivial = expected tensor with more than one element or an expected error",
+    assumptions=["exp(-1000) underflows to exactly 0 in float32 and float64 when computed as exp(x - max)"],
+    stages=lambda tier: [mc("reduce-ops", "MC_C09.tla", "MC_C09_%s.cfg" % tier, min_cases=10000)],
+)
